@@ -514,7 +514,7 @@ pub fn has_const_null_cmp(e: &Expr, interp: &Interp) -> bool {
 // ------------------------------------------------------------------------------------------
 
 pub fn check(case: &Case, known: &Known, db: &Db) -> Outcome {
-    let printer = Printer { funcs: &[], redundant: false };
+    let printer = Printer { funcs: &[], redundant: false, cur_module: None };
     let text = printer.expr(&case.expr);
     let src = format!("from v | select {{id, r = {text}}}");
     let dialect = util::dialect_by_name(&case.target);
